@@ -48,7 +48,7 @@ impl<T: Show> Show for darling::Result<T> {
     fn show(&self) -> String { match self { Ok(x) => format!("Outcome(Ok({}))", x.show()), Err(e) => format!("Outcome(Err({}))", e) } }
 }
 impl<T: Show> Show for Result<T, syn::Meta> {
-    fn show(&self) -> String { match self { Ok(x) => format!("Ok({})", x.show()), Err(m) => format!("Item({})", quote::ToTokens::to_token_stream(m).to_string()) } }
+    fn show(&self) -> String { match self { Ok(x) => format!("Ok({})", x.show()), Err(m) => format!("Item({})", show_tokens(quote::ToTokens::to_token_stream(m))) } }
 }
 
 /// outcome of one conversion: Ok(show, extra span info) or Err(text, span)
@@ -77,7 +77,7 @@ macro_rules! wrap_one {
             "arc" => run::<Arc<$t>>($m, plain),
             "refcell" => run::<RefCell<$t>>($m, plain),
             "spanned" => run::<SpannedValue<$t>>($m, |v| (Some(Range::of(v.span())), None)),
-            "original" => run::<WithOriginal<$t, syn::Meta>>($m, |v| (None, Some(quote::ToTokens::to_token_stream(&v.original).to_string()))),
+            "original" => run::<WithOriginal<$t, syn::Meta>>($m, |v| (None, Some(show_tokens(quote::ToTokens::to_token_stream(&v.original))))),
             "override" => run::<Override<$t>>($m, plain),
             "result" => run::<darling::Result<$t>>($m, plain),
             "resultmeta" => run::<Result<$t, syn::Meta>>($m, plain),
@@ -117,6 +117,18 @@ macro_rules! two_m { ($w2:expr, $w1:expr, $m:expr, $t:ty) => { wrap_two!($w2, $w
 pub const INNERS: [&str; 29] = ["bool", "u8", "i64", "String", "char", "Path", "Ident", "Expr", "LitStr", "PathList", "SRecv", "ERecv", "Map",
     "P0", "P1", "P2", "P4", "P8", "P16", "P32", "P64", "P3", "P40", "P96", "P127", "P33", "P65", "P24", "P66"];
 pub const TWO_INNERS: [&str; 8] = ["bool", "u8", "Path", "Expr", "SRecv", "P16", "P40", "P127"];
+
+/// token string in which an invisible group shows (a copy of an item has to keep it)
+pub fn show_tokens(ts: proc_macro2::TokenStream) -> String {
+    ts.into_iter().map(|t| match t {
+        proc_macro2::TokenTree::Group(g) => {
+            let (a, b) = match g.delimiter() { proc_macro2::Delimiter::None => ("\u{27e6}", "\u{27e7}"), proc_macro2::Delimiter::Parenthesis => ("(", ")"),
+                                               proc_macro2::Delimiter::Bracket => ("[", "]"), proc_macro2::Delimiter::Brace => ("{", "}") };
+            format!("{}{}{}", a, show_tokens(g.stream()), b)
+        }
+        other => other.to_string(),
+    }).collect::<Vec<_>>().join(" ")
+}
 
 /// concrete items of each abstract form
 pub fn items_of(form: &str) -> Vec<&'static str> {
@@ -180,9 +192,20 @@ pub fn replay_one(case: &Value) -> (crate::erralg::Outcome, u64) {
     let chain: Vec<String> = case["chain"].as_array().unwrap().iter().map(|s| s.as_str().unwrap().to_string()).collect();
     let form = case["form"].as_str().unwrap();
     MODE.with(|m| *m.borrow_mut() = ("ok".into(), None));
-    for text in items_of(form) {
+    for (text, grouped) in items_of(form).into_iter().flat_map(|t| [(t, false), (t, true)]) {
         let (meta, item, value) = parse_meta(text);
-        let item_tokens = quote::ToTokens::to_token_stream(&meta).to_string();
+        // the same name-value item with its value inside an invisible group (what a macro_rules! `$e:expr` leaves behind)
+        let (meta, value) = match (grouped, meta) {
+            (true, syn::Meta::NameValue(mut nv)) => {
+                nv.value = syn::Expr::Group(syn::ExprGroup { attrs: vec![], group_token: Default::default(), expr: Box::new(nv.value) });
+                (syn::Meta::NameValue(nv), None)
+            }
+            (true, _) => continue,
+            (false, m) => (m, value),
+        };
+        let text = if grouped { format!("{} (value in an invisible group)", text) } else { text.to_string() };
+        let text = text.as_str();
+        let item_tokens = show_tokens(quote::ToTokens::to_token_stream(&meta));
         let real: Vec<&str> = match chain[0].as_str() { "box" => vec!["box", "rc", "arc", "refcell"], w => vec![w] };
         let inners: &[&str] = if chain.len() == 1 { &INNERS } else { &TWO_INNERS };
         for inner_name in inners {
